@@ -161,7 +161,8 @@ func replay(c *core.Ctx, path string) error {
 		cs := *art.Replay.Case
 		obs, err := runReal(cs.Rq, cs.Seen, false)
 		if err != nil {
-			return err
+			c.Violation("A/collector-error", fmt.Sprintf("real collector fails: %v", err), map[string]any{"engine": "A", "case": cs})
+			return nil
 		}
 		c.Eval(1)
 		c.Sample(map[string]any{"case": cs, "observed": obs})
